@@ -44,6 +44,14 @@ Theorem C04_drain_oldest_first_back : forall pei_rec fuel e src z m rest rn g,
 Proof. exact back_drain_step. Qed.
 Print Assumptions C04_drain_oldest_first_back.
 
+(* the single-step variant (execute_single_queued_event) dispatches exactly the oldest stored event and leaves the
+   others stored *)
+Theorem C04_single_step_oldest_back : forall pei_rec e src z m rest rn g,
+  msgq rn = QEv e src z m :: rest ->
+  drain_one pei_rec rn g = bind (pei_rec e src) (fun _ => ret tt) (set_msgq rn rest) g.
+Proof. exact back_drain_one. Qed.
+Print Assumptions C04_single_step_oldest_back.
+
 (* ... and dispatches every stored event exactly once, in storage order, leaving the queue empty (dispatch replaced
    by a recording stub; any queue length) *)
 Theorem C04_drain_fifo_exactly_once_back : forall l fuel rn g, length l <= fuel -> msgq rn = ev_queue l ->
